@@ -56,9 +56,11 @@ namespace pika::execution::experimental {
 
             void start() & noexcept
             {
+                PIKA_VERIF_POST("place.start", this, 99, 0);
                 pika::detail::try_catch_exception_ptr(
                     [&]() {
                         std::thread t{[&]() mutable {
+                            PIKA_VERIF_POST("place.run", this, 0, 99);
                             pika::execution::experimental::set_value(std::move(receiver));
                         }};
                         t.detach();
@@ -67,6 +69,7 @@ namespace pika::execution::experimental {
                         pika::execution::experimental::set_error(
                             std::move(receiver), std::move(ep));
                     });
+                PIKA_VERIF_POST("place.started", nullptr, 0, 0);
             }
         };
 
